@@ -16,7 +16,7 @@ from tcv import families, fsops, refmodel, scratch, worlds
 from tcv.core import HarnessError, Result, Violation, digest
 from tcv.pool import pmap
 
-KINDS_Q = ['json', 'generator', 'dir', 'continues']
+KINDS_Q = ['json', 'generator', 'dir', 'continues', 'list_of_numpy']
 KINDS_ALL = ['json', 'json_list', 'numpy', 'pandas', 'series', 'generator', 'generator_lazy', 'list_of_numpy', 'dir', 'continues']
 
 
@@ -211,7 +211,7 @@ FAULTS = {
     'numpy': ['raise', 'wrong_type'], 'pandas': ['raise', 'wrong_type'], 'series': ['raise', 'wrong_type'],
     'generator': ['raise', 'gen_raise_0', 'gen_raise_1', 'unserialisable'],
     'generator_lazy': ['raise', 'gen_raise_0', 'gen_raise_1', 'unserialisable'],
-    'list_of_numpy': ['raise', 'wrong_type'],
+    'list_of_numpy': ['raise', 'wrong_type', 'unserialisable'],
     'dir': ['raise', 'raise_partial', 'wrong_type'],
     'continues': ['raise', 'raise_partial', 'wrong_type'],
 }
